@@ -71,6 +71,7 @@ pub struct MemSender {
 	pub faults: Arc<Faults>,
 	pub wire: Arc<Mutex<Vec<Out>>>,
 	pub idnum: fn(&Value) -> i64,
+	pub turns: std::sync::atomic::AtomicU64,
 }
 impl TransportSenderT for MemSender {
 	type Error = TErr;
@@ -92,7 +93,20 @@ impl TransportSenderT for MemSender {
 			self.wire.lock().push(o);
 			Ok(())
 		};
-		async move { r }
+		// a write that takes a few scheduler turns (back-pressure, flush): other tasks - the read task, the peer - run
+		// while the send task is still inside `send().await`
+		let turns = {
+			let n = self.turns.fetch_add(1, Ordering::Relaxed);
+			(n.wrapping_mul(2654435761) >> 7) % 4
+		};
+		async move {
+			if r.is_ok() {
+				for _ in 0..turns {
+					tokio::task::yield_now().await;
+				}
+			}
+			r
+		}
 	}
 	fn close(&mut self) -> impl std::future::Future<Output = Result<(), TErr>> + Send {
 		let t = self.tracer.clone();
@@ -135,10 +149,19 @@ impl TransportReceiverT for MemReceiver {
 	}
 }
 
+/// ids as the trace spec sees them (TLC integers are 32 bit): u64::MAX is 1_000_000 (the spec's IdMax), two other huge
+/// ids stand for themselves as "foreign" ids
+pub const HUGE: [(u64, i64); 3] = [(u64::MAX, 1_000_000), (u64::MAX - 1, 999_999), ((1 << 57) + 3, 999_998)];
+pub fn u64_as_num(x: u64) -> i64 {
+	HUGE.iter().find(|(u, _)| *u == x).map(|(_, n)| *n).unwrap_or(if x > 900_000 { 999_997 } else { x as i64 })
+}
+pub fn num_as_u64(n: i64) -> u64 {
+	HUGE.iter().find(|(_, m)| *m == n).map(|(u, _)| *u).unwrap_or(n as u64)
+}
 pub fn id_as_num(v: &Value) -> i64 {
 	match v {
-		Value::Number(n) => n.as_u64().map(|x| if x > 1_000_000 { 1_000_000 } else { x as i64 }).unwrap_or(-1),
-		Value::String(s) => s.parse::<u64>().map(|x| if x > 1_000_000 { 1_000_000 } else { x as i64 }).unwrap_or(-2),
+		Value::Number(n) => n.as_u64().map(u64_as_num).unwrap_or(-1),
+		Value::String(s) => s.parse::<u64>().map(u64_as_num).unwrap_or(-2),
 		_ => -1,
 	}
 }
@@ -152,12 +175,12 @@ pub struct Rig {
 	pub id_kind_str: bool,
 }
 
-pub fn build(max_queue: usize, buf_cap: usize, string_ids: bool, timeout: Duration) -> Rig {
+pub fn build(max_queue: usize, buf_cap: usize, string_ids: bool, timeout: Duration, seed: u64) -> Rig {
 	let tracer = Tracer::default();
 	let faults = Arc::new(Faults::default());
 	let wire = Arc::new(Mutex::new(vec![]));
 	let (peer_tx, rx) = mpsc::unbounded_channel();
-	let sender = MemSender { tracer: tracer.clone(), faults: faults.clone(), wire: wire.clone(), idnum: id_as_num };
+	let sender = MemSender { tracer: tracer.clone(), faults: faults.clone(), wire: wire.clone(), idnum: id_as_num, turns: std::sync::atomic::AtomicU64::new(seed) };
 	let receiver = MemReceiver { tracer: tracer.clone(), rx };
 	let client = ClientBuilder::default()
 		.max_concurrent_requests(max_queue)
